@@ -175,6 +175,10 @@ func modeC01(thorough bool) {
 				in.tr.Emit("raw.out", "qn", qn, "lst", lst, "outcome", out)
 			}
 		}
+		if lst == "udp" { // a datagram from source port 0: the response cannot be sent
+			in.sendFromPort0(valid)
+			time.Sleep(50 * time.Millisecond)
+		}
 		// the listener must still serve a valid query
 		for k := 0; k < 2; k++ {
 			q := mkq(uniq() + ".r0t60d0.z1.test.")
